@@ -176,13 +176,112 @@ class Inliner:
         e = self._strip_await(e)
         return e if isinstance(e, ast.Call) else None
 
+    def _hoist(self, s, f, cands):
+        """A helper call nested in the part of `s` that is evaluated first and exactly once: everything evaluated before it is bound to
+        temporaries (in evaluation order), the call itself to `__inlvK`, so that the next visit can splice `__inlvK = helper(...)`"""
+        from .normalise import _eval_order, _header_exprs
+
+        if isinstance(s, FUNC_TYPES + (ast.ClassDef,)):
+            return None
+        top = self._site(s)
+        for h in _header_exprs(s):
+            target = None
+            for x, cond in _eval_order(h):
+                if isinstance(x, ast.Call) and x is not top and not cond:
+                    g = self._callee(x, f, cands)
+                    if g is not None and g is not f and not any(isinstance(p, ast.Await) and p.value is x for p in ast.walk(h)) \
+                            and not isinstance(g.node, ast.AsyncFunctionDef):
+                        target = x
+                        break
+                if isinstance(x, (ast.NamedExpr, ast.Yield, ast.YieldFrom)):
+                    break
+            if target is None:
+                continue
+            # path from the root of the header to the call
+            path = []
+
+            def find(n):
+                if n is target:
+                    return True
+                for c in ast.iter_child_nodes(n):
+                    if find(c):
+                        path.append((n, c))
+                        return True
+                return False
+
+            if not find(h):
+                return None
+            path.reverse()
+            self.counter += 1
+            k = self.counter
+            pre = []
+            ti = 0
+
+            def pure(e):
+                return isinstance(e, (ast.Name, ast.Constant))
+
+            def temp(e):
+                nonlocal ti
+                ti += 1
+                nm = f"__inlh{k}_{ti}"
+                st = ast.Assign(targets=[ast.Name(id=nm, ctx=ast.Store())], value=e)
+                ast.copy_location(st, s)
+                ast.fix_missing_locations(st)
+                pre.append(st)
+                new = ast.Name(id=nm, ctx=ast.Load())
+                ast.copy_location(new, e)
+                return new
+
+            for parent, child in path:
+                if isinstance(parent, (ast.BoolOp, ast.IfExp, ast.Lambda, ast.ListComp, ast.SetComp, ast.DictComp, ast.GeneratorExp, ast.Dict)) or (
+                        isinstance(parent, ast.Compare) and len(parent.ops) > 1):
+                    if not ((isinstance(parent, ast.BoolOp) and parent.values[0] is child) or (isinstance(parent, ast.IfExp) and parent.test is child)):
+                        return None
+                    continue
+                # children evaluated before `child`, in order
+                for field, val in ast.iter_fields(parent):
+                    if val is child:
+                        break
+                    if isinstance(val, list):
+                        done = False
+                        for j, y in enumerate(val):
+                            if y is child:
+                                done = True
+                                break
+                            if isinstance(y, ast.expr) and not pure(y):
+                                if isinstance(y, ast.Starred):
+                                    return None
+                                val[j] = temp(y)
+                            elif isinstance(y, ast.keyword) and not pure(y.value):
+                                y.value = temp(y.value)
+                        if done:
+                            break
+                    elif isinstance(val, ast.expr) and not pure(val):
+                        setattr(parent, field, temp(val))
+            nm = f"__inlv{k}"
+            call_st = ast.Assign(targets=[ast.Name(id=nm, ctx=ast.Store())], value=target)
+            ast.copy_location(call_st, s)
+            ast.fix_missing_locations(call_st)
+            repl = ast.Name(id=nm, ctx=ast.Load())
+            ast.copy_location(repl, target)
+            parent, _ = path[-1] if path else (None, None)
+            if parent is None:
+                return None
+            for field, val in ast.iter_fields(parent):
+                if val is target:
+                    setattr(parent, field, repl)
+                elif isinstance(val, list):
+                    for j, y in enumerate(val):
+                        if y is target:
+                            val[j] = repl
+            return pre + [call_st, s]
+        return None
+
     def _try_splice(self, s, f, cands):
         c = self._site(s)
-        if c is None:
-            return None
-        g = self._callee(c, f, cands)
+        g = self._callee(c, f, cands) if c is not None else None
         if g is None or g is f:
-            return None
+            return self._hoist(s, f, cands)
         awaited = any(isinstance(x, ast.Await) and x.value is c for x in ast.walk(s))
         if isinstance(g.node, ast.AsyncFunctionDef) != awaited:
             return None
